@@ -243,6 +243,17 @@ CallPh(t, a) ==
             ires |-> IF ph[t] = "T" THEN "orig" ELSE "ph", obs |-> Obs(exp, phr), panic |-> ""])
     /\ UNCHANGED <<entry, ph, patches, mk, exp, cfg, touched, phr, lg>>
 
+\* C13: an ill-formed instruction through b's handle for t.  Kinds: callback with another parameter count
+\* ("arity") or parameter size ("size"), too few return values
+\* ("ret-few"), a return value of another size ("ret-size").  Every one of them is detected before anything is
+\* written: the call panics and NOTHING changes - neither mechanism nor requirement state (a lookup that creates
+\* a fresh, never applied mocker is not observable).
+MistakeKinds == {"arity", "size", "ret-few", "ret-size"}
+Mistake(b, t, kind) ==
+    /\ "Mistake" \in Ops
+    /\ UNCHANGED <<entry, ph, patches, mk, exp, cfg, touched, phr, lg>>
+    /\ Log([op |-> "Mistake", b |-> b, t |-> t, kind |-> kind, obs |-> Obs(exp, phr), panic |-> "rejected"])
+
 \* logging switches (builder.go OpenDebug/CloseDebug/OpenTrace/CloseTrace -> logger): they change lg only
 LogOp(name) ==
     /\ name \in Ops
@@ -267,6 +278,7 @@ Next == \/ Finish
               \/ \E b \in B : Reset(b)
               \/ \E t \in T, a \in A : Call(t, a) \/ CallPh(t, a)
               \/ \E n \in {"OpenDebug", "CloseDebug", "OpenTrace", "CloseTrace"} : LogOp(n)
+              \/ \E b \in B, t \in T, k \in MistakeKinds : Mistake(b, t, k)
 
 Spec == Init /\ [][Next]_vars
 
